@@ -744,8 +744,25 @@ func (k *c23Hist) planV2(saves []uint32, release uint32) {
 	k.at(c23bS1+200+k.jit(50), func() { k.stake(s3, node.ELA(1000)) })
 	k.at(c23bS1+300+k.jit(50), func() { k.voteV2(s3, node.ELA(100), b.V2Owners[3:], lock*2, true) })
 
-	for _, s := range saves {
-		s := s
+	for i, s := range saves {
+		s, i := s, i
+		// A council member claims a NEW DPoS node key, mined in block s-6. The
+		// arbiter update at the end of the round containing s-6 puts the new key
+		// into the NEXT CRC arbiter set only; it becomes current one round later.
+		// With 7-block rounds the save height s always lies in the round in
+		// between: the checkpoint of height s is written while next != current
+		// CRC arbiters. During the round after s the new key sponsors a block
+		// and (DPoS v2) its reward is booked under the member's stake address
+		// in DPoSV2RewardInfo — a lasting trace of which CRC set was on duty.
+		k.at(s-7, func() {
+			m := b.Members[(int(k.p.Seed%4)+4+i)%len(b.Members)]
+			in, ok := k.take(m)
+			if !ok {
+				k.inc("skipped:reclaim_no_funds")
+				return
+			}
+			k.submit("CRCouncilMemberClaimNode-new-key", node.CRCouncilMemberClaimNode(in, m, node.Key(node.KeyCRNode+20+i), payload.CurrentCRClaimDPoSNodeVersion), true)
+		})
 		// requests whose real-withdraw is pending at the save height
 		k.at(s-7, func() { k.claim(b.Staker) })
 		k.at(s-6, func() { k.returnVotes(s2, node.ELA(int64(30+k.r.Intn(50)))) })
